@@ -96,7 +96,7 @@ def run(ctx):
     rng = ctx.rng
     n_lists = 3000 if ctx.tier == "quick" else 120000
     ctx.rule = ("each list of 2-12 valid rules (every order for n<=3 of the near-duplicate strata: pairs differing only in letter case, one "
-                "byte, one field, the qualifier or `owner`; empty vs non-empty set fields) is one program pair L / Merge(L): an independent "
+                "byte, one field, the qualifier or `owner`; empty vs non-empty set fields; dense lists over 2-3 subjects and 3-4 access lists) is one program pair L / Merge(L): an independent "
                 "denotation (atomic facts, byte-exact) must be equal, Merge must be idempotent, and for lists of AppArmor-3 kinds both texts "
                 "are compiled by apparmor_parser -S (equal bytes => equal; otherwise automata equivalence + capability/network/rlimit dump "
                 "lines). Non-trivial = lists that Merge changed")
@@ -111,8 +111,37 @@ def run(ctx):
         bykind.setdefault(r["kind"], []).append(r)
     lists = []
     for i in range(n_lists):
-        stratum = rng.choice(["random", "same-kind", "near-duplicate", "near-duplicate", "same-subject", "same-subject", "signal-grid"])
-        if stratum == "signal-grid":
+        stratum = rng.choice(["random", "same-kind", "near-duplicate", "near-duplicate", "same-subject", "same-subject", "signal-grid", "dense", "dense"])
+        if stratum == "dense":
+            # few subjects, few access lists, many rules: every access list is written several times in the same spelling and most
+            # rules have a partner to merge with next to bystanders that must stay as they are (state shared between rule objects,
+            # e.g. a common backing array of equal access lists, shows as a bystander that changes)
+            kind = rng.choice(["file", "file", "file", "signal", "ptrace", "unix", "dbus", "mqueue"])
+            if kind == "file":
+                q = rulegen.qual(rng) if rng.random() < 0.3 else {"Audit": False, "AccessType": ""}
+                paths = rng.sample(["/var/lib/app/lock", "/var/lib/app/db", "@{run}/app.pid", "/etc/app.conf", "@{HOME}/.cache/app/**"], 3)
+                accs = rng.sample([["r", "w", "k"], ["r", "w"], ["m"], ["r"], ["w", "k"], ["m", "r"], ["r", "w", "l", "k"], ["l"], ["w"]], 4)
+                lst = []
+                for _k in range(rng.randint(4, 9)):
+                    r = {"kind": "file", "Comment": "", "Owner": False, "Target": "", "Path": rng.choice(paths), "Access": list(rng.choice(accs))}
+                    r.update(q)
+                    lst.append(r)
+            else:
+                import copy
+                cands = [r for r in bykind.get(kind, []) if not (kind == "dbus" and "bind" in r.get("Access", []))]
+                if len(cands) < 2:
+                    cands = pool
+                bases = [rng.choice(cands) for _ in range(2)]
+                vals = {"signal": ["send", "receive"], "ptrace": rulegen.PTRACE, "unix": ["send", "receive", "connect"], "dbus": ["send", "receive"],
+                        "mqueue": rulegen.MQ_ACC}.get(kind, [])
+                accs = [rulegen.subset(rng, vals, 1, 2) for _ in range(3)] if vals else []
+                lst = []
+                for _k in range(rng.randint(4, 8)):
+                    b = copy.deepcopy(rng.choice(bases))
+                    if accs and "Access" in b:
+                        b["Access"] = list(rng.choice(accs))
+                    lst.append(b)
+        elif stratum == "signal-grid":
             # the one kind with two set-valued fields: rules on one peer from a small grid of accesses x signal sets, in any order
             q = rulegen.qual(rng)
             peer = rng.choice(rulegen.PEERS[:4])
